@@ -394,6 +394,21 @@ def lookupIns (vals : List Nat) (acc : KV) : KV := let r := LRow.ofWire vals; in
 def loadLookup (file : Bytes) : Option KV := load lookupSpec lookupIns [] file
 def loadLookupWith (strict : Bool) (file : Bytes) : Option KV := loadWith lookupSpec strict lookupIns [] file
 
+/-- `Encoder::load`: the four street lookups, loaded one after the other (`Street::all()` order) and
+    merged with `map.extend`; a loader that fails (panics) fails the whole load. `Blueprint::load` /
+    `Blueprint::grow` = `Profile::load` (resp. an empty profile) and this. -/
+def loadEncoder (files : List Bytes) : Option KV :=
+  files.foldl (fun acc f =>
+    match acc, loadLookup f with
+    | some m, some l => some (l.foldl (fun a p => insertKV p.1 p.2 a) m)
+    | _, _ => none) (some [])
+
+/-- `Blueprint::load`: fails when either part fails -/
+def loadBlueprintAll (profile : Bytes) (lookups : List Bytes) : Option (PMap × KV) :=
+  match loadBlueprint profile, loadEncoder lookups with
+  | some p, some e => some (p, e)
+  | _, _ => none
+
 /-! ## transitions (`Decomp`) -/
 
 def transitionsExprRole : String → String
